@@ -21,7 +21,7 @@ SmallArgs == { U64(0), U64(23), U64(24), U64(256), <<0,0,0,1,0,0,0,0>>, <<255,25
 FillB(n) == [i \in 1..n |-> (i * 7) % 256]
 FillT(n) == [i \in 1..n |-> 97 + (i % 26)]
 BadUtf8 == { <<128>>, <<192,128>>, <<237,160,128>>, <<226,130>>, <<245,128,128,128>>, <<97,255>>, <<224,159,191>> }
-GoodUtf8 == { <<195,169>>, <<226,130,172>>, <<240,159,140,144>>, <<237,159,191>>, <<244,143,191,191>> }
+GoodUtf8 == { <<239,191,189>>, <<97,239,191,189,98>>, <<195,169>>, <<226,130,172>>, <<240,159,140,144>>, <<237,159,191>>, <<244,143,191,191>> }
 
 Keys == << EncUint(U64(0)), EncUint(U64(24)), EncText(<<97>>), EncText(<<98>>), EncText(<<97,97>>),
            EncBytes(<<>>), EncBytes(<<97>>) >>
